@@ -70,7 +70,13 @@ func readL2(data []byte, dictCap int) (out []byte, err error, p any) {
 
 func readAlone(data []byte, dictCap int) (out []byte, err error, p any) {
 	var r *lzma.Reader
-	if p = safely(func() { r, err = lzma.ReaderConfig{DictCap: dictCap}.NewReader(bytes.NewReader(data)) }); p != nil || err != nil {
+	// every other stream comes from a source that is only an io.Reader (no ReadByte): the
+	// readers take a different input path for those
+	var src io.Reader = bytes.NewReader(data)
+	if (len(data)+dictCap/4096)%2 == 1 {
+		src = struct{ io.Reader }{src}
+	}
+	if p = safely(func() { r, err = lzma.ReaderConfig{DictCap: dictCap}.NewReader(src) }); p != nil || err != nil {
 		return nil, err, p
 	}
 	return readAllSafe(r, 512, 0)
